@@ -2,8 +2,10 @@
 
     [same_core s s']   the tables other than attempts / instances / billing are unchanged: what the attempt bookkeeping
                        sub-procedures ([add_attempt], [update_attempt], [set_times], [bill]) guarantee;
-    tactic [frame]     proves goals  F (fst (do_X s ...)) = F s  by case analysis for the small transactions;
-    shape lemmas       for the large ones (MarkComplete, CreateJobs, CreateGroups, Commit). *)
+    [same_tree s s']   marks, ancestor rows and the keys of groups / batches / updates are unchanged (tactic [tree]);
+    [grow s s']        they are only appended to: holds for every transaction ([step_grow]);
+    [jrel P l0 l]      how a transaction rewrites the jobs table; [step_jobs]: every transaction, every state;
+    shape lemmas       for the large transactions (Schedule, MarkCreating/Started, MarkComplete, CreateJobs, CreateGroups). *)
 From HailV Require Import Common.Prelude BatchDB.Model BatchDB.Tables BatchDB.CMap BatchDB.Legal.
 From RecordUpdate Require Import RecordSet.
 Import RecordSetNotations.
@@ -310,15 +312,6 @@ Proof.
 Qed.
 
 (* ------------------------------------------------------------------ effect of each transaction on the jobs table *)
-
-Lemma do_deactivate_core_mid s name (l : list attempt) :
-  same_core s (fold_left (fun st a =>
-                     if a_inst a =? name then
-                       match find_attempt st (a_batch a) (a_job a) (a_id a) with
-                       | Some cur => update_attempt st cur (cur <| a_rollup := Some 0 |>)
-                       | None => st end
-                     else st) l s).
-Proof. apply same_core_fold. intros st a. destruct (a_inst a =? name); [|core_step]. destruct (find_attempt _ _ _ _); core_step. Qed.
 
 Lemma do_deactivate_jobs s name reason time : jrel idle (jobs s) (jobs (fst (do_deactivate s name reason time))).
 Proof.
